@@ -4,6 +4,7 @@
    capacity at every point).  The end-to-end oracle evaluates the SAME `feasible` on the tours of the solutions the real
    solver returns (tools/props/c01.py); skills, limits and the other static rules are checked there only. *)
 From VRP Require Import Base.Tac Model.Core Spec.Feasible Proofs.CoreTimeP Proofs.CoreEvalP Proofs.CoreRemoveP.
+From VRP Require Import Spec.Valid Proofs.ValidP Proofs.ReachP.
 
 (* every insertion the evaluator accepts keeps the tour feasible: any matrix, open/closed tours, static and dynamic demand *)
 Theorem C01_accepted_insertion_feasible : forall dur v t idx target,
@@ -38,3 +39,43 @@ Theorem C01_removal_nonmetric_refuted :
   exists (dur : Z -> Z -> Z) v t idx,
     sched_ok dur t /\ feasible dur v t = true /\ (0 < idx < length t)%nat /\ feasible dur v (remove_at t idx) = false.
 Proof. exact removal_nonmetric_refuted. Qed.
+
+(* ---------------------------------------------------------------------------------------------------------------------------
+   The rules the end-to-end checker evaluates on every returned document besides `feasible` (Spec/Valid.v, second part of
+   group F): each executable checker is sound and complete for its declarative statement. *)
+
+(* compatibility (jobs with different classes never share a tour), groups (the assigned jobs of one group are in ONE
+   tour), reachability (no leg of the reported visiting order is marked unreachable by errorCodes) *)
+Theorem C01_static_rules_checker_sound_complete : forall P S,
+  compat_viols P S ++ group_viols P S ++ reach_viols P S = [] <->
+  (forall t, In t (sl_tours S) -> Compatible P t) /\ Grouped P S /\ (forall t, In t (sl_tours S) -> Reachable P t).
+Proof. exact static_rules_nil. Qed.
+
+(* skills: allOf, oneOf, noneOf *)
+Theorem C01_skills_checker_sound_complete : forall vt job,
+  skills_ok vt job = true <->
+  (forall s, In s (pj_skills job) -> In s (vt_skills vt))
+  /\ (pj_one job = [] \/ exists s, In s (pj_one job) /\ In s (vt_skills vt))
+  /\ (forall s, In s (pj_none job) -> ~ In s (vt_skills vt)).
+Proof. exact skills_ok_iff. Qed.
+
+(* capacity in every further dimension: nothing is reported iff every tour, projected on each extra dimension, is
+   load-feasible for the same independent simulation (Spec.Feasible.load_feasible) that dimension 0 is checked with *)
+Theorem C01_capacity_every_dimension : forall P S,
+  dims_feasible_viols P S = [] <->
+  forall n t d r, nth_error (sl_tours S) n = Some t -> (d < xdims P)%nat ->
+                  rebuild (dim_problem d P) (dim_tour d t) = Some r -> load_feasible (v_cap (rb_veh r)) (rb_acts r) = true.
+Proof. exact dims_feasible_viols_nil. Qed.
+
+(* reachability, step level: an insertion that passed the gate of ReachableConstraint (prev -> target, target -> next) keeps
+   every leg reachable ... *)
+Theorem C01_reachable_insertion_sound : forall err t idx a,
+  tour_reachable err t = true -> reach_gate err t idx a = true -> tour_reachable err (insert_after t idx a) = true.
+Proof. exact reach_insertion_sound. Qed.
+
+(* ... but a removal is not gated: the full statement "every search step keeps every leg reachable" is refuted by the
+   removal step (finding C01-F4: 0 -> 2 -> 1 -> 0 with only 2 -> 0 unreachable; removing the job at 1 leaves 0 -> 2 -> 0) *)
+Theorem C01_removal_unreachable_refuted :
+  exists (err : Z -> Z -> Z) t idx,
+    tour_reachable err t = true /\ (0 < idx < length t)%nat /\ tour_reachable err (remove_at t idx) = false.
+Proof. exact removal_unreachable_refuted. Qed.
